@@ -132,6 +132,7 @@ def check(ctx):
                 "the limiter is reached through %s" % (wrappers or "direct awaits of block_until_allowed"), ["http", "limiter-reachable"])
     check_limiter(ctx)
     check_sharing(ctx)
+    check_periods(ctx)
 
 
 def check_limiter(ctx):
@@ -409,6 +410,12 @@ def sort_order_of_limits(prog, nb):
                 and nb.dominates(sort_bb, c.bb):
             order = "desc" if order == "asc" else "asc"
     return order
+
+
+def check_periods(ctx):
+    """a limit's period is read with the documented period grammar (shared with C19.R5): `10ms` must not silently mean ten minutes"""
+    from .c19 import check_period_grammar
+    check_period_grammar(ctx)
 
 
 def check_sharing(ctx):
